@@ -72,7 +72,8 @@ class Surrogates(Cached):
             print("Generated an instance of the Surrogates class.")
 
         #  Set class variables
-        self.original_data = original_data
+        #  (a private copy: normalize_original_data() works in place)
+        self.original_data = np.array(original_data)
         """The original time series for surrogate generation."""
         self.silence_level = silence_level
         """(string) - The inverse level of verbosity of the object."""
